@@ -379,7 +379,16 @@ func planeReader(a *anchors, r *sx.Rep, fn *ssa.Function, role string, hdrT type
 	for _, op := range ops {
 		switch op.Kind {
 		case sx.IOCall:
-			forwards = append(forwards, op)
+			if fillHelper(op.Callee) >= 0 {
+				// a package-local "allocate n bytes and fill them from the stream" helper is the plane read
+				if rd != nil {
+					r.Undecide("SYM-BYTES", name, a.p.Pos(op.Call.Pos()), "more than one read in a plane reader")
+					return
+				}
+				rd = op
+			} else {
+				forwards = append(forwards, op)
+			}
 		case sx.IOReadFull, sx.IOBinaryRead:
 			if rd != nil {
 				r.Undecide("SYM-BYTES", name, a.p.Pos(op.Call.Pos()), "more than one read in a plane reader")
@@ -427,7 +436,25 @@ func planeReader(a *anchors, r *sx.Rep, fn *ssa.Function, role string, hdrT type
 	// ---- plane buffer and size
 	var bufRoot ssa.Value
 	var planeLen sx.Poly
+	viaHelper := false
 	switch rd.Kind {
+	case sx.IOCall:
+		si := fillHelper(rd.Callee)
+		if si < 0 || si >= len(rd.Call.Call.Args) {
+			r.Undecide("SYM-BYTES", name, a.p.Pos(rd.Call.Pos()), "fill helper argument not found")
+			return
+		}
+		planeLen = e.Int(rd.Call.Call.Args[si])
+		for _, ref := range *rd.Call.Referrers() {
+			if ex, ok := ref.(*ssa.Extract); ok && ex.Index == 0 {
+				bufRoot = ex
+			}
+		}
+		if bufRoot == nil {
+			r.Undecide("SYM-BYTES", name, a.p.Pos(rd.Call.Pos()), "the buffer returned by the fill helper is not used")
+			return
+		}
+		viaHelper = true
 	case sx.IOReadFull:
 		root, off := e.SliceRoot(rd.Data)
 		if !off.IsZero() {
@@ -461,7 +488,7 @@ func planeReader(a *anchors, r *sx.Rep, fn *ssa.Function, role string, hdrT type
 			}
 		}
 	}
-	if _, isMk := bufRoot.(*ssa.MakeSlice); !isMk {
+	if _, isMk := bufRoot.(*ssa.MakeSlice); !isMk && !viaHelper {
 		r.Undecide("SYM-BYTES", name, a.p.Pos(rd.Call.Pos()), "the plane buffer is not a make([]T, n) of this function")
 		return
 	}
@@ -1350,4 +1377,49 @@ func signTest(cmp *ssa.BinOp, raw ssa.Value, sign uint64, onTrue bool) (sx.Tri, 
 		return sx.TF, desc
 	}
 	return sx.TU, "test of a different value"
+}
+
+// fillHelper recognises a package-local helper `func(in io.Reader, n T) ([]byte, error)` that
+// allocates make([]byte, n), fills it with exactly one io.ReadFull from its stream parameter and
+// returns it on success; the result is the index of the size argument (static call, receiver-less), or -1.
+func fillHelper(fn *ssa.Function) int {
+	if fn == nil || fn.Blocks == nil || fn.Signature.Recv() != nil || fn.Signature.Results().Len() != 2 {
+		return -1
+	}
+	in := streamParamOf(fn)
+	if in == nil {
+		return -1
+	}
+	e := sx.NewEnv(fn)
+	ops := e.FindIO(nil)
+	if len(ops) != 1 || ops[0].Kind != sx.IOReadFull || ops[0].Stream != ssa.Value(in) || ops[0].InLoop {
+		return -1
+	}
+	root, off := e.SliceRoot(ops[0].Data)
+	mk, isMk := root.(*ssa.MakeSlice)
+	if !isMk || !off.IsZero() {
+		return -1
+	}
+	l := e.Int(mk.Len)
+	si := -1
+	for i, p := range fn.Params {
+		if l.Equal(sx.Sym(p.Name())) {
+			si = i
+		}
+	}
+	if si < 0 {
+		return -1
+	}
+	n := 0
+	for _, ret := range sx.SuccessReturns(fn) {
+		r0, o0 := e.SliceRoot(ret.Results[0])
+		if r0 != root || !o0.IsZero() || !ops[0].Call.Block().Dominates(ret.Block()) {
+			return -1
+		}
+		n++
+	}
+	if n == 0 {
+		return -1
+	}
+	return si
 }
